@@ -298,6 +298,10 @@ pub fn gen(rng: &mut Rng, thorough: bool, sink: &mut Sink) {
   // key = value type: all values 0 -> the harness also drives OrderedSet<u8>
   let depth_u8 = if thorough { 5 } else { 4 };
   for d in 1..=depth_u8 { seqs(&ops_u8, d, &mut Vec::new(), &[0], sink, "exh-u8"); seqs(&ops_u8, d.min(4), &mut Vec::new(), &[3, 3, 0, 1, 0, 2, 0], sink, "exh-u8-init"); }
+  // four keys: order defects that need a later non-last entry (e.g. swap_remove) show only with >= 4 elements
+  let ops_u8_4 = all_ops(&[1, 2, 3, 4], &[0]);
+  for d in 1..=(if thorough { 4 } else { 3 }) { seqs(&ops_u8_4, d, &mut Vec::new(), &[4, 1, 0, 2, 0, 3, 0, 4, 0], sink, "exh-u8-4keys"); }
+  seqs(&all_ops(&[1, 2, 3, 4, 5], &[0, 1]), 2, &mut Vec::new(), &[5, 1, 0, 2, 1, 3, 0, 4, 1, 5, 0], sink, "exh-kv-5keys");
   // (b) every list over a 4-element universe up to length 4: constructors, wrappers, JSON
   let univ = [(1, 0), (1, 1), (2, 0), (3, 5)];
   let mut all: Vec<Vec<(i64, i64)>> = Vec::new();
